@@ -196,7 +196,11 @@ Definition store_ok (fs : list mfunc) (shapes : shapes_t) (want : list (str * va
   | _ => false
   end.
 
-Definition map_spec_ok (gens : list (list mfunc)) (inputs : env) (user : shape_dict)
+(* with_store = true: the executable statement; with_store = false: the same statement WITHOUT its last conjunct
+   ("results completed before the failure remain loadable", judged against the denotation of C01), i.e. the part
+   about the exception, its annotation, the generations, the snapshot -- the part for which the capstone
+   spec_ok (run c) = true is proved in Proofs/C13MapCap.v *)
+Definition map_judge (with_store : bool) (gens : list (list mfunc)) (inputs : env) (user : shape_dict)
            (dump_sub par inproc : bool) (tgt : str) (e : exn) (obs : sx) : bool :=
   if negb (gens_ok gens) then true else
   let fs := concat gens in
@@ -217,14 +221,19 @@ Definition map_spec_ok (gens : list (list mfunc)) (inputs : env) (user : shape_d
                 && forallb (fun c => call_depth fs c <=? d) lg                   (* no later generation *)
                 && (if par then true else opt_eqb str_eqb (last_str lg) (Some tgt))  (* sequential: stops there *)
                 && (if inproc then snap_ok f sn tgt e else true)                 (* ErrorSnapshot, in-process only *)
-                && match denote_run sym_body fs inputs user, all_shapes user inputs fs with
-                   | Ok den, Ok shapes =>
-                       let done := if par then filter (fun c => call_depth fs c <? d) lg
-                                   else before_first tgt lg in
-                       store_ok fs shapes (d_out den) done store
-                   | _, _ => true
-                   end
+                && (if with_store then
+                      match denote_run sym_body fs inputs user, all_shapes user inputs fs with
+                      | Ok den, Ok shapes =>
+                          let done := if par then filter (fun c => call_depth fs c <? d) lg
+                                      else before_first tgt lg in
+                          store_ok fs shapes (d_out den) done store
+                      | _, _ => true
+                      end
+                    else true)
             end
       end
   | _ => false                                          (* includes the Timeout observation: the call must return *)
   end.
+
+Definition map_spec_ok := map_judge true.
+Definition map_head_ok := map_judge false.
